@@ -146,6 +146,7 @@ pub fn build(base: &[u8], parts: &mut Parts, inner: Option<&str>, faults: &[Stor
                 crate::spec::Edit::Set { off, bytes } => (*off as u64, (*off + bytes.len().max(1)) as u64),
                 crate::spec::Edit::Delete { off, .. } => (*off as u64, *off as u64 + 16),
                 crate::spec::Edit::Insert { off, bytes } => (*off as u64, (*off + bytes.len().max(1)) as u64),
+                crate::spec::Edit::Repeat { off, .. } => (*off as u64, *off as u64 + 64),
             };
         }
     }
